@@ -36,7 +36,7 @@ MODELLED = ('image._standardize_frame_index, get_raw_frame (native byte range in
             'get_stored_frame(s)/pixel_array; io._read_metadata (native offset table; extended/basic/rebuilt table '
             'choice), _get_bot, _build_bot, _read_eot length check, read_frame_raw (native + encapsulated, item '
             'level); frame.decode_frame native branch (bit window, little-endian words, BitsStored correction)')
-STRATA = ['native', 'index', 'reader_index', 'reader_neg', 'raw422', 'encaps', 'encaps_bad', 'codec', 'fixture']
+STRATA = ['native', 'index', 'reader_index', 'reader_neg', 'raw422', 'encaps', 'encaps_bad', 'codec', 'codec1', 'fixture']
 NOT_EXECUTED = ['JPEG 2000 fixtures (no openjpeg codec installed, none decodable here)',
                 'big-endian transfer syntaxes (rejected by _check_little_endian)']
 RULE = ('native: BitsAllocated 1/8/16/32 x signed x 1|3 samples x 1..6 frames, rows/cols 1..7 (every residue of '
@@ -44,7 +44,10 @@ RULE = ('native: BitsAllocated 1/8/16/32 x signed x 1|3 samples x 1..6 frames, r
         'implicit/explicit VR, source dataset/path/bytes/file object/BytesIO, eager+lazy+cached; index: frame numbers '
         '-1,0,1,n-1,n,n+1 x as_index through 7 entry points; reader_index: ImageFileReader.read_frame_raw on '
         '-n-1..n+1 (reader_neg: negatives must be refused); raw422: YBR_FULL_422 native byte ranges + all paths; encaps: random fragmentations, markers, basic/empty/wrong/extended tables, malformed items; '
-        'codec: RLE/JPEG-LS synthetic x offset table basic/none/extended x source; fixture: shipped JPEG-LS (with '
+        'codec: RLE/JPEG-LS synthetic x 1-3 fragments per frame x offset table basic/none/extended x source; codec1: '
+        'single-frame objects WITHOUT NumberOfFrames (CT/DX IOD) x RLE|JPEG-LS x 1-4 fragments x table x all 5 sources; '
+        'every codec/fixture case: each access route called FIRST on a fresh image (stored frame, raw frame, batch, '
+        'pixel_array) and again after the others, eager + lazy + ImageFileReader; fixture: shipped JPEG-LS (with '
         'and without BOT) and JPEG baseline files. non-trivial = more than one frame or a rejected request')
 
 _TMP = None
@@ -222,8 +225,30 @@ def gen_cases(rng, tier):
         bs = bits if rng.random() < 0.6 else rng.randint(bits - 4, bits - 1)
         cases.append({'kind': 'codec', 'ts': ts, 'bits': bits, 'bs': bs, 'signed': signed, 'spp': spp,
                       'rows': rows, 'cols': cols, 'n': rng.choice([1, 2, 3, 4, 6]),
+                      'frags': 1 if ts == 'rle' else rng.choice([1, 1, 2, 3]),
                       'table': rng.choice(['basic', 'none', 'eot']), 'src': rng.choice(SOURCES),
                       'seed': rng.randrange(1 << 30)})
+        if cases[-1]['table'] == 'eot':
+            cases[-1]['frags'] = 1      # an extended offset table requires one fragment per frame
+    # ordinary single-frame objects (IOD without NumberOfFrames), encapsulated: every fragmentation x
+    # offset table x source (RLE allows one fragment per frame only)
+    combos = [('rle', 1, 'basic'), ('rle', 1, 'none'), ('rle', 1, 'eot'),
+              ('jpegls', 1, 'basic'), ('jpegls', 1, 'none'), ('jpegls', 1, 'eot'),
+              ('jpegls', 2, 'none'), ('jpegls', 3, 'none'), ('jpegls', 2, 'basic'), ('jpegls', 4, 'basic'),
+              ('jpegls', 3, 'basic')]   # (an extended offset table requires one fragment per frame)
+    for _ in range(k):
+        for ts, frags, table in combos:
+            for src in SOURCES:
+                if ts == 'rle':
+                    bits, signed = rng.choice([(8, 0), (8, 1), (16, 0), (16, 1)])
+                    rows, cols = rng.randint(1, 7), rng.randint(1, 7)
+                else:
+                    bits, signed = rng.choice([(8, 0), (16, 0)])
+                    rows, cols = rng.randint(6, 10), rng.randint(6, 10)
+                cases.append({'kind': 'codec1', 'ts': ts, 'bits': bits, 'bs': bits if rng.random() < 0.6 else bits - 2,
+                              'signed': signed, 'spp': 1, 'rows': rows, 'cols': cols, 'n': 1, 'frags': frags,
+                              'table': table, 'src': src, 'single_iod': rng.choice(['ct', 'dx']),
+                              'seed': rng.randrange(1 << 30)})
     for name in ('sm_image_jpegls.dcm', 'sm_image_jpegls_nobot.dcm', 'sm_image.dcm', 'sm_image_control.dcm',
                  'seg_image_ct_binary.dcm', 'ct_image.dcm'):
         for src in (['path', 'bytes'] if tier == 'quick' else SOURCES[1:]):
@@ -238,9 +263,12 @@ def _base_ds(c, n):
     import highdicom as hd
     import synth
     if c.get('single_iod'):
-        ds = synth.base('ct_image.dcm')
+        ds = synth.base('dx_image.dcm' if c['single_iod'] == 'dx' else 'ct_image.dcm')
         ds.SOPInstanceUID = hd.UID()
         ds.Rows, ds.Columns = c['rows'], c['cols']
+        assert n == 1
+        if 'NumberOfFrames' in ds:
+            del ds.NumberOfFrames
         return ds
     ds = synth.base('sm_image.dcm')
     ds.SOPInstanceUID = hd.UID()
@@ -448,16 +476,54 @@ def _codec_ds(c):
     ds['PixelData'].VR = 'OW' if c['bits'] > 8 else 'OB'
     ds.compress(RLELossless if c['ts'] == 'rle' else JPEGLSLossless)
     frames = list(generate_frames(ds.PixelData, number_of_frames=c['n']))
-    if c['table'] == 'basic':
-        ds.PixelData = encapsulate(frames, has_bot=True)
-    elif c['table'] == 'none':
-        ds.PixelData = encapsulate(frames, has_bot=False)
-    else:
-        pdv, eot, eotl = encapsulate_extended(frames)
-        ds.PixelData, ds.ExtendedOffsetTable, ds.ExtendedOffsetTableLengths = pdv, eot, eotl
+    split = [_split_even(f, c.get('frags', 1)) for f in frames]
+    pdv, eot, eotl = _write_encaps(split, c['table'])
+    ds.PixelData = pdv
+    if eot is not None:
+        ds.ExtendedOffsetTable, ds.ExtendedOffsetTableLengths = eot, eotl
+    c['_stray'] = _stray_markers(split)
     ds['PixelData'].VR = 'OB'
     ds['PixelData'].is_undefined_length = True
     return ds, arr
+
+
+def _split_even(frame, k):
+    """Cut one encoded frame into k even-length fragments (fewer if it is too short)."""
+    if len(frame) % 2:
+        frame += b'\0'
+    k = max(1, min(k, len(frame) // 2))
+    step = max(2, (len(frame) // k) // 2 * 2)
+    cuts = [i * step for i in range(k)] + [len(frame)]
+    return [frame[cuts[i]:cuts[i + 1]] for i in range(k)]
+
+
+def _write_encaps(split, table):
+    """Encapsulated pixel data from fragment lists; table in basic | none | eot."""
+    offs, lens, pos, body = [], [], 0, b''
+    for fr in split:
+        offs.append(pos)
+        lens.append(sum(len(x) for x in fr))
+        for frag in fr:
+            body += ITEM + struct.pack('<L', len(frag)) + frag
+            pos += 8 + len(frag)
+    bot = offs if table == 'basic' else []
+    pdv = ITEM + struct.pack('<L', 4 * len(bot)) + b''.join(struct.pack('<L', o) for o in bot) + body + DELIM
+    if table == 'eot':
+        return pdv, b''.join(struct.pack('<Q', o) for o in offs), b''.join(struct.pack('<Q', x) for x in lens)
+    return pdv, None, None
+
+
+def _stray_markers(split):
+    """True when a fragment boundary could be mistaken for a frame boundary (a non-first fragment
+    starting with a start marker, or a non-last one ending with an end marker): frames of such a
+    stream cannot be told apart without an offset table, by anybody."""
+    for fr in split:
+        for j, frag in enumerate(fr):
+            if j > 0 and frag[:2] in (b'\xff\xd8', b'\xff\x4f'):
+                return True
+            if j < len(fr) - 1 and frag.rstrip(b'\0')[-2:] == b'\xff\xd9':
+                return True
+    return False
 
 
 def _digest(a):
@@ -478,27 +544,60 @@ def _all_paths(op, n, want_reader=True):
     if n == 1:
         ref = ref[None]
     out['pydicom'] = _digest(ref)
-    for lazy in (False, True):
-        tag = 'lazy' if lazy else 'eager'
-        im = op.image(lazy)
-        out[tag + '.one'] = _digest(np.stack([im.get_stored_frame(k) for k in range(1, n + 1)]))
-        out[tag + '.one_idx'] = _digest(np.stack([im.get_stored_frame(k, as_index=True) for k in range(n)]))
-        out[tag + '.batch'] = _digest(im.get_stored_frames())
-        out[tag + '.batch_rev'] = _digest(im.get_stored_frames(list(range(n, 0, -1)))[::-1])
+    def put(name, fn):
+        try:
+            out[name] = _digest(fn())
+        except Exception as e:   # noqa: recorded per route, judged by the oracle
+            out[name] = f'raised {type(e).__name__}: {str(e)[:80]}'
+
+    def putraw(name, im):
+        try:
+            raws, dec = rawdec(im)
+            out[name + 'dec'] = _digest(dec)
+            out[name + 'sha'] = hashlib.sha1(b'|'.join(raws)).hexdigest()[:16]
+        except Exception as e:   # noqa
+            out[name + 'dec'] = f'raised {type(e).__name__}: {str(e)[:80]}'
+
+    def stack1(im):
+        return np.stack([im.get_stored_frame(k) for k in range(1, n + 1)])
+
+    def rawdec(im):
         kw = _decode_kw(im)
         raws = [im.get_raw_frame(k) for k in range(1, n + 1)]
-        out[tag + '.rawdec'] = _digest(np.stack([decode_frame(r, index=k, **kw) for k, r in enumerate(raws)]))
-        out[tag + '.rawsha'] = hashlib.sha1(b'|'.join(raws)).hexdigest()[:16]
+        return raws, np.stack([decode_frame(r, index=k, **kw) for k, r in enumerate(raws)])
+
+    for lazy in (False, True):
+        tag = 'lazy' if lazy else 'eager'
+        # stored frame first
+        im = op.image(lazy)
+        put(tag + '.one', lambda: stack1(im))
+        put(tag + '.one_idx', lambda: np.stack([im.get_stored_frame(k, as_index=True) for k in range(n)]))
+        put(tag + '.batch', lambda: im.get_stored_frames())
+        put(tag + '.batch_rev', lambda: im.get_stored_frames(list(range(n, 0, -1)))[::-1])
+        putraw(tag + '.raw', im)
+        put(tag + '.pixel_array_last', lambda: im.pixel_array[None] if n == 1 else im.pixel_array)
+        # raw frame first
+        im = op.image(lazy)
+        putraw(tag + '.rawfirst.raw', im)
+        put(tag + '.rawfirst.one', lambda: stack1(im))
+        # batch first
+        im = op.image(lazy)
+        put(tag + '.batchfirst.batch', lambda: im.get_stored_frames(range(n), as_indices=True))
+        put(tag + '.batchfirst.one', lambda: stack1(im))
+        # whole pixel array first, then everything from the cache
         im2 = op.image(lazy)
-        pa = im2.pixel_array
-        out[tag + '.pixel_array'] = _digest(pa[None] if n == 1 else pa)
-        out[tag + '.cached_one'] = _digest(np.stack([im2.get_stored_frame(k) for k in range(1, n + 1)]))
-        out[tag + '.cached_batch'] = _digest(im2.get_stored_frames())
+        put(tag + '.pixel_array', lambda: im2.pixel_array[None] if n == 1 else im2.pixel_array)
+        put(tag + '.cached_one', lambda: stack1(im2))
+        put(tag + '.cached_batch', lambda: im2.get_stored_frames())
+        putraw(tag + '.cached.raw', im2)
     if want_reader:
         with ImageFileReader(DicomBytesIO(op.data)) as r:
-            out['reader.read_frame'] = _digest(np.stack([r.read_frame(k, correct_color=False) for k in range(n)]))
-            raws = [r.read_frame_raw(k) for k in range(n)]
-            out['reader.rawsha'] = hashlib.sha1(b'|'.join(raws)).hexdigest()[:16]
+            put('reader.read_frame', lambda: np.stack([r.read_frame(k, correct_color=False) for k in range(n)]))
+            try:
+                raws = [r.read_frame_raw(k) for k in range(n)]
+                out['reader.rawsha'] = hashlib.sha1(b'|'.join(raws)).hexdigest()[:16]
+            except Exception as e:   # noqa
+                out['reader.rawdec'] = f'raised {type(e).__name__}: {str(e)[:80]}'
     return out
 
 
@@ -618,11 +717,14 @@ def run_impl(c):
                         out.append(x if isinstance(x, Err) else _locate(x, frags))
                     return out
         return _catch(go)
-    if k == 'codec':
+    if k in ('codec', 'codec1'):
+        c = dict(c)
         try:
             ds, arr = _codec_ds(c)
         except RuntimeError as e:   # pyjpegls refuses some tiny frames
             return {'skipped': str(e)[-80:]}
+        if c.get('_stray') and c['table'] == 'none' and c['n'] > 1:
+            return {'skipped': 'fragment boundary looks like a frame boundary and there is no offset table'}
         op = _Opened(_file_bytes(ds), c['src'], ds)
         try:
             with _Quiet():
@@ -833,7 +935,7 @@ def oracle(c, out):
         if b in ('odd', 'zero') and c['table'] != 'basic':
             return f'{b}-length item accepted while rebuilding the offset table'
         return None
-    if k in ('codec', 'fixture'):
+    if k in ('codec', 'codec1', 'fixture'):
         if 'skipped' in out:
             return None
         if 'error' in out:
@@ -847,7 +949,7 @@ def oracle(c, out):
         shas = {v for kx, v in out.items() if kx.endswith('rawsha')}
         if len(shas) != 1:
             return f'raw frame bytes differ between eager / lazy / reader: {sorted(shas)}'
-        if k == 'codec' and out['source_array'] != ref:
+        if k in ('codec', 'codec1') and out['source_array'] != ref:
             return f'lossless codec did not return the encoded array: {ref} vs {out["source_array"]}'
         return None
     return f'unknown kind {k}'
@@ -884,7 +986,7 @@ def nontrivial(c, out):
         return True
     if k in ('encaps', 'encaps_bad'):
         return True
-    if k in ('codec', 'fixture'):
+    if k in ('codec', 'codec1', 'fixture'):
         return 'skipped' not in out
     return True
 
@@ -914,7 +1016,9 @@ def shrink(c):
             for i in range(len(c['frames'])):
                 fr = c['frames'][:i] + c['frames'][i + 1:]
                 yield dict(c, frames=fr, n=len(fr), idx=list(range(0, len(fr) + 2)) + [-1])
-    if k == 'codec':
+    if k in ('codec', 'codec1'):
+        if c.get('frags', 1) > 2:
+            yield dict(c, frags=2)
         for key in ('n',):
             if c[key] > 1:
                 yield dict(c, **{key: c[key] - 1})
